@@ -136,6 +136,7 @@ type Config struct {
 	Trace       bool    // keep the textual event log
 	EventFirst  bool    // seq policy: due events before tasks (default tasks first)
 	UnlockYield float64 // probability that releasing a lock is a scheduling point too (check-then-act after unlock)
+	StmtYield   float64 // probability that a statement-level point (files rewritten with -stmt-points) is a scheduling point
 	SelectOrder string  // "" = seeded permutation of ready cases; "source" / "reverse" = fixed preference
 	SortedMaps  bool    // iterate maps in sorted key order instead of a seeded permutation
 }
